@@ -630,3 +630,119 @@ Fixpoint run (c : cfg) (s : st) (l : list op) : list (st * list uev * list call)
       | Some (s1, ev, calls) => let '(r, b) := run c s1 t in ((s1, ev, calls) :: r, b)
       end
   end.
+
+(* ==================================================================================================
+   The bounded event channel and a user who polls the handle when he likes.
+
+   Everything above lets the user drain the handle after every event. Here the events emitted by the
+   protocol loop and by the Connection tasks queue up in the event channel of capacity `cap` (>= 1); a
+   producer that finds the channel full waits, and waiting producers are served first-come-first-served
+   (tokio's mpsc semaphore is fair). `lq` is the channel content followed by the events of the waiting
+   producers, in that order; the protocol loop is parked inside a handler exactly when one of its own
+   events (everything except NotificationStreamClosed, which the Connection tasks emit) sits beyond the
+   capacity. While it is parked nothing else is handled (the harness does not schedule anything else
+   either); calls a handler makes after its blocked `.await` (force_close in the timer arm) are held
+   back until it resumes. `LPoll` is one `handle.next()`: the oldest queued event, else the oldest
+   queued notification of a peer that is still in the handle's `peers` map. Send operations are left
+   to the eager model above. *)
+Record lst := mkL {
+  ls : st;
+  lq : list uev;          (* emitted and not yet delivered, oldest first *)
+  lsk : list N;           (* the tasks whose sinks the queued NotificationStreamOpened events carry *)
+  lnf : list peer;        (* the handle's notification channel *)
+  lheld : list call       (* calls of a parked handler that come after its blocked await *)
+}.
+
+Definition linit : lst := mkL init [] [] [] [].
+
+Definition is_task_ev (e : uev) : bool := match e with UClosed _ => true | _ => false end.
+
+(* the sinks of the Opened events a handler emits: the task it just spawned *)
+Definition new_sinks (s : st) (ev : list uev) : list N :=
+  flat_map (fun e => match e with UOpened _ _ => [ntask s] | _ => [] end) ev.
+
+Definition parked (cap : nat) (l : lst) : bool :=
+  existsb (fun e => negb (is_task_ev e)) (skipn cap (lq l)).
+
+Inductive lop := LOp (o : op) | LPoll.
+
+Definition send_op (o : op) : bool :=
+  match o with GrabSink _ | SendSync _ _ | SendAsync _ _ | SinkSync _ _ | SinkAsync _ _ => true | _ => false end.
+Definition timer_op (o : op) : bool := match o with Timer _ => true | _ => false end.
+Definition lskip (cap : nat) (l : lst) (o : op) : bool :=
+  parked cap l || send_op o.
+
+(* the next notification the handle hands out: entries of peers that are not in `peers` are discarded *)
+Fixpoint next_notif (s : st) (l : list peer) : option peer * list peer :=
+  match l with
+  | [] => (None, [])
+  | p :: t => if hopen s p then (Some p, t) else next_notif s t
+  end.
+
+(* result: new state, what this `handle.next()` returned, calls made on the service *)
+Definition lstep (c : cfg) (cap : nat) (l : lst) (g : lop) : option (lst * list uev * list call) :=
+  match g with
+  | LOp o =>
+      if lskip cap l o then Some (l, [], [])
+      else
+        match main_handler c (ls l) o with
+        | None => None
+        | Some (s1, ev, calls) =>
+            let q1 := lq l ++ ev in
+            let k1 := lsk l ++ new_sinks (ls l) ev in
+            let n1 := lnf l ++ notifs_of (ls l) o in
+            if parked cap (mkL s1 q1 k1 n1 (lheld l)) && timer_op o
+            then Some (mkL s1 q1 k1 n1 calls, [], [])
+            else Some (mkL s1 q1 k1 n1 (lheld l), [], calls)
+        end
+  | LPoll =>
+      match lq l with
+      | e :: rest =>
+          let '(s1, _, killed) := drain (ls l) [e] in
+          (* the sink the handle stores is the one the event carries *)
+          let '(s1', ks) :=
+            match e, lsk l with
+            | UOpened p _, k :: kt => (set_hsink s1 p (Some k), kt)
+            | _, ks => (s1, ks)
+            end in
+          let '(s2, ev4) := kill_tasks s1' killed in
+          let l1 := mkL s2 (rest ++ ev4) ks (lnf l) (lheld l) in
+          if parked cap l1 then Some (l1, [e], [])
+          else Some (mkL s2 (rest ++ ev4) ks (lnf l) [], [e], lheld l)
+      | [] =>
+          match next_notif (ls l) (lnf l) with
+          | (Some p, t) => Some (mkL (ls l) [] (lsk l) t (lheld l), [UNotif p], [])
+          | (None, t) => Some (mkL (ls l) [] (lsk l) t (lheld l), [], [])
+          end
+      end
+  end.
+
+Fixpoint lrun (c : cfg) (cap : nat) (l : lst) (gs : list lop) : list (lst * list uev * list call) * bool :=
+  match gs with
+  | [] => ([], true)
+  | g :: t =>
+      match lstep c cap l g with
+      | None => ([], false)
+      | Some (l1, ev, calls) => let '(r, b) := lrun c cap l1 t in ((l1, ev, calls) :: r, b)
+      end
+  end.
+
+(* what one step puts into the event queue (ghost, for the no-loss statement) *)
+Definition lemitted (c : cfg) (cap : nat) (l : lst) (g : lop) : list uev :=
+  match g with
+  | LOp o =>
+      if lskip cap l o then []
+      else match main_handler c (ls l) o with Some (_, ev, _) => ev | None => [] end
+  | LPoll =>
+      match lq l with
+      | e :: _ =>
+          let '(s1, _, killed) := drain (ls l) [e] in
+          let '(s1', _) :=
+            match e, lsk l with
+            | UOpened p _, k :: kt => (set_hsink s1 p (Some k), kt)
+            | _, ks => (s1, ks)
+            end in
+          snd (kill_tasks s1' killed)
+      | [] => []
+      end
+  end.
